@@ -123,37 +123,12 @@ def rule_delegation(ctx):
             ctx.holds('R1', 'Dataset.interp_axis -> maybe_sort, get_weights, reduce_axis(from_weight)')
             ctx.holds('R4', 'interp_axis passes the requested axis')
             ctx.holds('R5', 'interp_axis keeps attrs')
-    # arithmetic
-    fi = ctx.fn(DS + '_binary_op')
-    OTHER = P_('other')
-    ev = run(ctx, fi, mode='join')
-    okb = 0
-    for p in ev.paths:
-        for e in p.events:
-            if e.kind == 'store_sub' and e.loops and e.c[0] == 'call' and T.call_name(e.c) == '_binary_op':
-                c = e.c
-                k1 = e.b
-                recv = T.call_receiver(c)
-                arg = c[2][1] if len(c[2]) > 1 else None
-                if recv != ('sub', SELF, k1) or c[2][0] != P_('func'):
-                    ctx.violated('R1', fi, e.node, 'res[k] must be self[k]._binary_op(func, ...)', node=e.node)
-                    continue
-                if not (arg == OTHER or (arg[0] == 'sub' and arg[1] == OTHER)):
-                    ctx.violated('R1', fi, e.node, 'the per-variable operation must receive the caller\'s operand unchanged (other / other[k]); here it receives %s: '
-                                 'pre-reindexing the right operand onto the left one drops the labels that exist only on the right, unlike the outer join of the '
-                                 'per-variable operation' % T.show(arg)[:80], node=e.node)
-                    continue
-                okb += 1
-    if okb >= 2:
-        ctx.holds('R1', 'Dataset._binary_op: self[k]._binary_op(func, other[k] | other)')
-    else:
-        ctx.violated('R1', fi, 'Dataset._binary_op', 'expected the Dataset-Dataset and the Dataset-scalar delegation')
-    fi = ctx.fn(DS + '_unary_op')
-    ev = run(ctx, fi, mode='join')
-    if any(e.kind == 'store_sub' and e.c == ('call', ('attr', ('sub', SELF, e.b), '_unary_op'), (P_('func'),), ()) for p in ev.paths for e in p.events):
-        ctx.holds('R1', 'Dataset._unary_op: self[k]._unary_op(func)')
-    else:
-        ctx.violated('R1', fi, 'Dataset._unary_op', 'res[k] = self[k]._unary_op(func)')
+    # arithmetic: which variable meets which operand (the variable of the same key of a Dataset operand, the operand itself otherwise; keys only one side has are
+    # left out; the reflected form hands the same operand to every variable) is decided by interpreting the three methods on an abstract Dataset whose variables
+    # answer _binary_op / _rbinary_op / _unary_op with a symbolic call - whatever loop or helper the methods are written with
+    from ..scenario_rule import rule_scenarios
+    for m in ('_binary_op', '_rbinary_op', '_unary_op'):
+        rule_scenarios(ctx, 'R1', only=DS + m, title='per-variable delegation (Dataset.%s interpreted on an abstract Dataset)' % m)
     # stack_ds / concatenate_ds
     for name, callee, kws in (('stack_ds', 'stack', {'axis': None, 'keys': None, 'align': T.CONST_FALSE}), ('concatenate_ds', 'concatenate', {'axis': P_('axis'), 'align': T.CONST_FALSE})):
         fi = ctx.fn('dimarray.dataset.' + name)
@@ -566,6 +541,13 @@ def rule_reindex(ctx):
                 okk = False
         if len(rel) != 1 or not any(rel[0].b == m or T.show(rel[0].b) == T.show(m) for m in masks):
             ctx.violated('R6', fi, 'relabel', 'the dataset axis must be relabelled with the requested labels where they were missing (dataset.axes[...][mask] = values[mask])', node=p.node)
+            okk = False
+        elif any(a == METHOD or (a[0] == 'cmp' and METHOD in (a[2], a[3])) for a, pol in rel[0].guards):
+            # (DimArray.reindex_axis relabels the positions that were not found whatever `method` is: method='left'/'right' take the data of the neighbouring label,
+            # the axis shows the requested one)
+            ctx.violated('R6', fi, 'relabel depends on method', 'the relabelling of the positions that were not found happens only when %s: DimArray.reindex_axis '
+                         'relabels them for every method, so with method=\'left\'/\'right\' the dataset keeps the neighbouring label where each variable on its own '
+                         'would show the requested one' % ', '.join('%s is %s' % (T.show(a)[:40], pol) for a, pol in rel[0].guards if a == METHOD or (a[0] == 'cmp' and METHOD in (a[2], a[3]))), node=rel[0].node)
             okk = False
     elif indices is None:
         ctx.violated('R6', fi, 'take step', 'Dataset.reindex_axis no longer takes along the axis', node=p.node)
